@@ -196,6 +196,12 @@ def check_seq_line(op, line, i, flag):
                 flag("resolve-unsound", "resolve-at-late-time-is-not-latest", f"Resolve({did}, time {t} >= all signing times, allowDeactivated) differs from latest", i)
         for k, e in enumerate(events):
             sound(f"s{k}:", s=e["ref"], must="ok" if e["doc"]["id"] == did else "none")
+            # a source transaction of the latest version resolves to the latest version
+            if e["doc"]["id"] == did and e["ref"][:10] in ad["src"] and pr.get(f"s{k}:") != pr.get("ad:"):
+                flag("resolve-unsound", "source-tx-of-latest-version-does-not-resolve-to-it", f"Resolve({did}, source tx {e['ref'][:10]}) is not the latest version although the latest version lists it", i)
+            # ... and so does the latest version's own hash
+            if ad["hash"] == content_name(e["doc"]) and pr.get(f"h{k}:") != pr.get("ad:"):
+                flag("resolve-unsound", "hash-of-latest-version-does-not-resolve-to-it", f"Resolve({did}, hash of the latest version) is not the latest version", i)
             sound(f"h{k}:", h=content_name(e["doc"]))
         for k, p in enumerate(op.get("probes") or []):
             h = content_name(events[mine[p["h"] % len(mine)]]["doc"]) if p["h"] >= 0 else None
@@ -291,6 +297,27 @@ def run(ctx):
                 feats["with-restart-mid-sequence"] += 1
             if any(e["time"] % 1000000000 for e in op["events"]):
                 feats["sub-second-times"] += 1
+            if any(c > 100 for c in fl):
+                feats["with-failing-shelf-operation"] += 1
+            seen_ct = set()
+            for e in op["events"]:
+                k3 = (e["doc"]["id"], e["clock"], e["time"])
+                if k3 in seen_ct:
+                    feats["clock-and-time-tie-broken-by-ref"] += 1
+                    break
+                seen_ct.add(k3)
+            if len({json.dumps(e["doc"], sort_keys=True) for e in op["events"]}) < n:
+                feats["republished-identical-document"] += 1
+            if n >= 11:
+                feats["two-digit-versions-possible"] += 1
+            own = {}
+            for e in op["events"]:
+                own.setdefault(e["doc"]["id"], set()).add(e["ref"])
+            if any(p not in own[e["doc"]["id"]] for e in op["events"] for p in e["prevs"]):
+                feats["prevs-naming-foreign-or-unseen-transactions"] += 1
+            firsts = Counter(e["doc"]["id"] for e in op["events"] if not e["prevs"])
+            if any(c > 1 for c in firsts.values()):
+                feats["second-root-transaction"] += 1
         seq_of[i] = last_seq
         by_set.setdefault((cur_set, kind), []).append((i, line))
     oracle_bad = 0
